@@ -447,7 +447,7 @@ JOBS = [
     dict(name='acc_dist_ctor', functions=['accumulator_dist_ctor1', 'distribution_parameters_bins_x', 'distribution_parameters_bins_y'],
          specs=['accumulator_dist_ctor1'], entry='h_accumulator_dist_ctor1', enforce='accumulator_dist_ctor1',
          structs=[dict(cls='distribution_parameters', vec=True), dict(cls='accumulator', cls_targs=['double', '1'], cname='accumulator_dist')],
-         preludes=['opaque.h'], defines=['VP_DMAX=65536', 'VP_BINSMAX=1024'], props=['C11', 'C02'],
+         preludes=['opaque.h'], globals='size_t vp_g_t;', defines=['VP_DMAX=65536', 'VP_BINSMAX=1024'], props=['C11', 'C02'],
          assumptions=['every distribution has 1 <= bins_x, bins_y <= 1024 and there are at most 2^16 distributions (hypothesis assumed at the elements read)']),
     dict(name='dist1d', functions=['accumulator_dist_add_to_1d_distribution', 'accumulate', 'distribution_parameters_x_min', 'distribution_parameters_bin_size_x', 'distribution_parameters_bins_x'],
          specs=['accumulator_dist_add_to_1d_distribution', 'accumulate'], entry='h_accumulator_dist_add_to_1d_distribution', enforce='accumulator_dist_add_to_1d_distribution',
